@@ -22,7 +22,16 @@ func VerifDumpProgram(vt reflect.Type) (string, error) {
 	}
 	out := make([]string, 0, len(p))
 	for _, ins := range p {
-		s := fmt.Sprintf("%s %d %d", strings.ReplaceAll(ins.op().String(), " ", "_"), ins.vi(), ins.vb())
+		name := strings.ReplaceAll(ins.op().String(), " ", "_")
+		switch ins.op() { // not in _OpNames
+		case _OP_skip_emtpy:
+			name = "skip_emtpy"
+		case _OP_array_clear:
+			name = "array_clear"
+		case _OP_array_clear_p:
+			name = "array_clear_p"
+		}
+		s := fmt.Sprintf("%s %d %d", name, ins.vi(), ins.vb())
 		switch ins.op() {
 		case _OP_switch:
 			var ls []string
